@@ -114,12 +114,23 @@ N_HIST = {'quick': 12000, 'thorough': 200000}
 N_DEB822 = {'quick': 6000, 'thorough': 80000}
 
 FLOORS = {'quick': {'nontrivial': 50000,
-                    'monitors': {'M': 54000, 'M.idem': 54000, 'M.hist': 12000, 'M.deb822': 11000},
+                    'monitors': {'M': 54000, 'M.idem': 54000, 'M.hist': 12000, 'M.deb822': 11000, 'M.order': 48000},
                     'counters': {'flavour:rt': 48000, 'flavour:hist': 6000, 'flavour:deb822': 3000,
                                  'deb822:Packages': 1500, 'deb822:Sources': 1500,
                                  'deb822:init:text': 700, 'deb822:init:lines': 700, 'deb822:init:dict': 700,
                                  'deb822:init:iter': 700,
-                                 'hist:mut:arch': 3500, 'hist:mut:term': 3500}},
+                                 'hist:mut:arch': 3500, 'hist:mut:term': 3500,
+                                 # atoms by effective dict key order / by the way the dict was put together
+                                 'keyorder:canonical': 160000, 'keyorder:permuted': 158000,
+                                 'keyorder:name-not-first': 118000,
+                                 'keyorder:via:insert': 35000, 'keyorder:via:move': 35000, 'keyorder:via:comp': 17500,
+                                 'keyorder:via:fromkeys': 17500, 'keyorder:via:sorted': 17500,
+                                 'keyorder:via:rsorted': 17500, 'keyorder:via:reversed': 17500,
+                                 'keyorder:via:copy': 17500,
+                                 # architecture lists by class (measured on the executed case)
+                                 'archlist:plain': 48000, 'archlist:negated': 48000,
+                                 'archlist:mixed:neg-then-plain': 7900, 'archlist:mixed:plain-then-neg': 7900,
+                                 'archlist:mixed:alternating': 13900, 'archlist:mixed:irregular': 2800}},
           'thorough': {'nontrivial': 1100000,
                        'monitors': {'M': 1100000, 'M.idem': 1100000, 'M.hist': 200000, 'M.deb822': 150000},
                        'counters': {'flavour:rt': 1000000, 'flavour:hist': 100000, 'flavour:deb822': 40000,
@@ -128,7 +139,7 @@ FLOORS = {'quick': {'nontrivial': 50000,
                                     'deb822:init:iter': 9000,
                                     'hist:mut:arch': 60000, 'hist:mut:term': 60000}}}
 SHAPE_FLOOR = {'quick': 1800, 'thorough': 55000}           # per shape, over the whole run
-KSHAPE_FLOOR = {'quick': 1, 'thorough': 1}                  # per shape with a permuted key order
+KSHAPE_FLOOR = {'quick': 875, 'thorough': 1}               # per shape with a permuted key order
 
 LOWER = 'abcdefghijklmnopqrstuvwxyz'
 DIGITS = '0123456789'
@@ -541,7 +552,7 @@ def roundtrip(ctx, PR, desc, mon=True):
         return ('reformat-differs', 'str(R)=%s but str(parse(str(R)))=%s' % (rp(text), rp(again))), text, given, back
     if any(permuted(a) for g in desc for a in g):
         # M.order: an == structure whose dicts list their keys in the canonical order formats to the same string
-        canon_text = PR.str(build(PR, desc, canonical=True))
+        canon_text = PR.str(want)       # every comparison against the oracle copy has been made by now
         if mon:
             ctx.mon('M.order')
         if canon_text != text:
@@ -706,7 +717,11 @@ def observe_relations(PR, cls, clsname, init, paras, on_eval=None):
     """Read every generated field back through `.relations`.  Returns None (all
     paragraphs gave back their structures), 'count' (paragraph splitter: not this
     property's business) or (key_suffix, message)."""
-    objs = make_paragraphs(PR, cls, init, paras)
+    try:
+        objs = make_paragraphs(PR, cls, init, paras)
+    except Exception as e:      # str() raising on a generated structure: attributed by the caller at the bare boundary
+        return 'paragraph-construction-raises/%s' % type(e).__name__, '%s(%s) from str() output: %s: %s' % (
+            clsname, init, type(e).__name__, str(e)[:300])
     if objs is None:
         return 'count'
     for obj, fields in zip(objs, paras):
@@ -824,10 +839,14 @@ LEVEL_TEXT = ('Runtime monitoring: 10^5 (quick) / 2*10^6 (thorough) generated re
               'live PkgRelation.str, parsed by the live PkgRelation.parse_relations under a recording warnings filter, and '
               'compared with the structure itself (values, documented namedtuple types, second formatting).  A history '
               'flavour edits earlier parse results in place before parsing fresh structures made of the same atoms; a '
-              'third flavour reads the result through Packages/Sources .relations.  Held-on-observed, not a proof.')
+              'third flavour reads the result through Packages/Sources .relations.  About half of the per-relation dicts '
+              'reach str with a permuted key insertion order (same items; str must give the string of the == canonical '
+              'structure), a quarter of the architecture lists mix negated and plain names.  Held-on-observed, not a proof.')
 LEVEL_NOTE = ('Trusted: CPython, the generators and vp.models.dpkgver.classify (version validity).  Domain restricted to '
-              'lower-case policy-valid names/profiles, uniformly negated architecture lists, non-empty lists, text '
-              'produced by PkgRelation.str only.')
+              'lower-case policy-valid names/profiles, non-empty lists (architecture lists uniformly plain, uniformly '
+              'negated or mixed - each name carries its own flag), plain dicts with all five keys in any insertion order, '
+              'text produced by PkgRelation.str only.')
 TECHNIQUE = ('runtime monitoring: boundary oracle M (the generated structure itself) on PkgRelation.parse_relations('
-             'PkgRelation.str(R)) with warning capture and re-format check; history monitor M.hist (in-place edits of earlier '
+             'PkgRelation.str(R)) with warning capture and re-format check; M.order (str of a structure whose dicts have '
+             'permuted key order equals str of the == canonical structure); history monitor M.hist (in-place edits of earlier '
              'results between parses); M.deb822 observes the same boundary through Packages/Sources .relations')
